@@ -457,6 +457,8 @@ def deep_statements(tier="quick"):
 
 
 SPECIAL = [
+    "WITH x AS (DELETE FROM t WHERE a = 1 RETURNING a, b) SELECT a FROM x WHERE b IN (SELECT c FROM u)",
+    "WITH ins AS (INSERT INTO t (a) VALUES (1) RETURNING a), upd AS (UPDATE u SET b = f(c) WHERE d = 2 RETURNING b) SELECT * FROM ins, upd",
     "SELECT STRING_AGG(name, ',' ORDER BY k1, k2 DESC, (SELECT MAX(p) FROM priorities)) FROM t",
     "SELECT PERCENTILE_CONT(0.5) WITHIN GROUP (ORDER BY a, b) FROM t",
     "SELECT COUNT(*) FILTER (WHERE a > 1), SUM(b) OVER (PARTITION BY c, d ORDER BY e, f ROWS BETWEEN 2 PRECEDING AND 3 FOLLOWING) FROM t WINDOW w AS (PARTITION BY a ORDER BY b)",
